@@ -12,6 +12,7 @@
   (272a27e, 1209e30); `old_order_drops_session` and `old_abor_unanswered` keep the negative witnesses as
   statements about the OLD shapes, so a return to them is named by the model.
 -/
+import AioftpModel.Properties.C05
 import AioftpModel.Model.Abort
 
 namespace C14
@@ -72,5 +73,17 @@ theorem abor_alive_iff (c : Bool) (guards : List Guard) (pos : Pos) :
 
 /-- non-vacuity: the positions are distinguishable on the real table -/
 example : abor Verb.retr.workerGuards .inBody ≠ abor Verb.retr.workerGuards .none := by decide
+
+/-! ### ABOR never overtakes the transfer command before it (F14, repaired in /repo 6553f05) -/
+
+/-- An ABOR sent right after a transfer command used to be handled while that command was still in its guards
+    (every line was its own task): answered "226 nothing to abort", and the transfer then ran.  As the source is now
+    the ABOR's handler starts only when the transfer command's handler has returned - i.e. when its worker exists -
+    for every schedule (`C05.pipelined_commands_handled_in_order`); `abor_answered` then applies to the worker
+    position it finds. -/
+theorem abor_waits_for_the_command_before_it (evs : List Model.Dispatch.Ev) :
+    (Model.Dispatch.runNow evs).running.length ≤ 1 ∧
+    (Model.Dispatch.runNow evs).started ++ (Model.Dispatch.runNow evs).backlog = (Model.Dispatch.runNow evs).received :=
+  ⟨(C05.pipelined_commands_handled_in_order evs).1, (C05.pipelined_commands_handled_in_order evs).2.1⟩
 
 end C14
